@@ -44,8 +44,14 @@ func escapeTemplate(tmpl *Template, node parse.Node, name string) error {
 		// Prevent execution of unsafe templates.
 		if t := tmpl.set[name]; t != nil {
 			t.escapeErr = err
-			t.text.Tree = nil
-			t.Tree = nil
+			// A template whose only problem is that it ends in a non-text context keeps
+			// its tree: it cannot be executed on its own (escapeErr), but templates that
+			// call it in a suitable context are valid and need it, whether they were
+			// analysed before or are analysed later.
+			if c.err != nil {
+				t.text.Tree = nil
+				t.Tree = nil
+			}
 		}
 		// Forget what the failed analysis recorded. Otherwise a later analysis of a
 		// template that calls this one would be answered from the stale output
@@ -558,6 +564,13 @@ func (e *escaper) computeOutCtx(c context, t *template.Template) context {
 			state: stateError,
 			err:   errorf(ErrOutputContext, t.Tree.Root, 0, "cannot compute output context for template %s", t.Name()),
 		}
+	}
+	if ok {
+		// Record the context the template really ends in. escapeTemplateBody stored the
+		// assumed one (the start context), which is wrong for a template that ends in
+		// another context than it starts in: later calls and executions answered from
+		// this entry would be analysed as if the template ended where it began.
+		e.output[t.Name()] = c1
 	}
 	return c1
 }
